@@ -785,8 +785,8 @@ class Gen:
             if f["hasdef"] and f["default"] is not None and self.accepts_null(ft) and r.random() < 0.4:
                 out[f["name"]] = None          # an explicit None is a value (the null branch), not an absent field
                 continue
-            if omit and not f["hasdef"] and r.random() < 0.2 and self.accepts_null(ft):
-                continue
+            if omit and not f["hasdef"] and self.accepts_null(ft) and r.random() < (0.5 if ft["k"] == "prim" else 0.2):
+                continue          # (a field of plain type "null" is left out half of the time)
             if depth > 5 and self.accepts_null(ft):
                 out[f["name"]] = None
                 continue
